@@ -26,3 +26,91 @@ Theorem C08_hr_count :
     r = cnt + count_marker (slice src pos maximum) marker.
 Proof. exact hr_scan_count. Qed.
 Print Assumptions C08_hr_count.
+
+(* ---- getLines: line for line a suffix of the source line -------------------------------- *)
+From MD Require Import Model.Render Model.Inline Lemmas.Verbatim.
+
+(* For EVERY state (any nesting, any table contents), line range and indent >= 0: the result is
+   the concatenation, over the lines of the range, of  k spaces ++ src[first : end-of-line]  where
+   first >= the line's logical start, every dropped position holds a blank or lies in the
+   container prefix (offset < tShift), k <= 3, and k > 0 only directly after a dropped tab. *)
+Theorem C08_get_lines_verbatim :
+  forall st a b indent keep content,
+    get_lines st a b indent keep = Ok content -> 0 <= indent -> pieces st b keep a content.
+Proof. exact get_lines_verbatim. Qed.
+Print Assumptions C08_get_lines_verbatim.
+
+(* the three verbatim rules hand exactly the lines of their map to getLines *)
+Theorem C08_code_block_content :
+  forall cfg st sl el st',
+    r_code cfg st sl el false = Ok (true, st') ->
+    exists t content, last_tok st st' t /\ tmap t = Some (sl, b_line st')
+      /\ tcontent t = content ++ [10]
+      /\ get_lines st sl (b_line st') (4 + b_blkIndent st) false = Ok content.
+Proof. exact r_code_content. Qed.
+Print Assumptions C08_code_block_content.
+
+Theorem C08_fence_content_markup_info :
+  forall cfg st sl el st',
+    r_fence cfg st sl el false = Ok (true, st') ->
+    exists t nl ind pos e marker, last_tok st st' t /\ tmap t = Some (sl, b_line st')
+      /\ (b_line st' = nl \/ b_line st' = nl + 1)
+      /\ tb (b_sCount st) sl = Ok ind
+      /\ get_lines st (sl + 1) nl ind true = Ok (tcontent t)
+      /\ line_start st sl = Ok pos /\ tb (b_eMarks st) sl = Ok e
+      /\ (marker = 126 \/ marker = 96)
+      /\ let p2 := skip_chars (b_src st) pos marker in
+         pos + 3 <= p2 /\ tmarkup t = slice (b_src st) pos p2 /\ tinfo t = slice (b_src st) p2 e.
+Proof. exact r_fence_content. Qed.
+Print Assumptions C08_fence_content_markup_info.
+
+Theorem C08_fence_markup_is_marker_run :
+  forall src pos m, 0 <= pos -> Forall (fun c => c = m) (slice src pos (skip_chars src pos m)).
+Proof. exact skip_chars_run. Qed.
+Print Assumptions C08_fence_markup_is_marker_run.
+
+Theorem C08_html_block_content :
+  forall cfg st sl el st',
+    r_html_block cfg st sl el false = Ok (true, st') ->
+    exists t, last_tok st st' t /\ tmap t = Some (sl, b_line st')
+      /\ get_lines st sl (b_line st') (b_blkIndent st) true = Ok (tcontent t).
+Proof. exact r_html_block_content. Qed.
+Print Assumptions C08_html_block_content.
+
+Theorem C08_heading_markup :
+  forall cfg st sl el st' pos,
+    r_heading cfg st sl el false = Ok (true, st') -> line_start st sl = Ok pos -> 0 <= pos ->
+    exists o i c e level m2,
+      b_tokens st' = b_tokens st ++ [o; i; c]
+      /\ tb (b_eMarks st) sl = Ok e
+      /\ 1 <= level <= 6 /\ tmarkup o = rep 35 level /\ tmarkup c = rep 35 level
+      /\ (forall q, pos <= q < pos + level -> char_at (b_src st) q = Some 35)
+      /\ (pos + level < e -> is_space_at (b_src st) (pos + level) = true)
+      /\ tmap o = Some (sl, sl + 1) /\ tmap i = Some (sl, sl + 1)
+      /\ tcontent i = py_strip (slice (b_src st) (pos + level) m2).
+Proof. exact r_heading_markup. Qed.
+Print Assumptions C08_heading_markup.
+
+(* a code span: opening and closing backtick strings of equal length, the text between them with
+   line feeds as spaces and one padding space stripped from each side under the CommonMark rule *)
+Theorem C08_code_span_content :
+  forall st st',
+    r_backticks st false = Ok (true, st') -> 0 <= i_pos st -> i_pos st < len (i_src st) ->
+    (i_tokens st' = i_tokens st)
+    \/ exists pre t pos ms me,
+         i_tokens st' = pre ++ [t] /\ ttype t = s_code_inline
+         /\ i_pos st < pos /\ pos <= ms /\ ms < me /\ i_pos st' = me
+         /\ me - ms = pos - i_pos st
+         /\ (forall q, i_pos st <= q < pos -> py_idx (i_src st) q = Ok 96)
+         /\ (forall q, ms <= q < me -> py_idx (i_src st) q = Ok 96)
+         /\ tmarkup t = slice (i_src st) (i_pos st) pos
+         /\ tcontent t = code_span_text (slice (i_src st) pos ms).
+Proof. exact r_backticks_content. Qed.
+Print Assumptions C08_code_span_content.
+
+(* the hypotheses are met: a tab-indented code line under indent 2 keeps two spaces of the first
+   tab, and the rules succeed on concrete documents *)
+Example C08_get_lines_applies :
+  get_lines (state_init [9; 9; 102; 10; 32; 32; 32; 103; 10] env0 []) 0 2 2 false
+  = Ok [32; 32; 9; 102; 10; 32; 103].
+Proof. vm_compute. reflexivity. Qed.
